@@ -37,7 +37,7 @@ func c02(r *core.Run) {
 		r.Require(k, 1)
 	}
 	r.Assumption("refcodec (written from the Thrift binary protocol spec, no thriftrw imports) is the reference encoding")
-	r.FinishStd("random and enumerated well-typed wire trees; each is encoded by binary.Default.Encode and by the StreamWriter call sequence (must equal the refcodec bytes), decoded by the random-access decoder at offset 0 and k with forcing and by the stream reader under one of 6 chunking classes (must equal the tree bit-for-bit, consuming exactly the encoding); non-trivial = encoding of >= 4 bytes, distinct by (type, bytes)", "cases")
+	r.FinishStd("random and enumerated well-typed wire trees; each is encoded by binary.Default.Encode and by the StreamWriter call sequence (must equal the refcodec bytes), decoded by the random-access decoder at offset 0 and k with forcing and by the stream reader under one of 7 read-segmentation classes (whole, one byte, fixed k, random, zero-length reads interleaved, first read 1 byte, io.EOF delivered with the last bytes) and over a ReaderAt that reports io.EOF with the last bytes (must equal the tree bit-for-bit, consuming exactly the encoding); non-trivial = encoding of >= 4 bytes, distinct by (type, bytes)", "cases")
 }
 
 func c03(r *core.Run) {
